@@ -78,6 +78,9 @@ CHECKS.update({
     "C19": _std("exploration", "Hypothesis-generated hostile exception objects + exhaustive integer and SQLSTATE ranges against an independent table/precedence model; metamorphic renaming for strict",
         "Generated exception types/attribute values/args (directed so that the attribute each classifier reads is present) checked for totality and against a table model written from the docstrings; every int in [-50,1100] in every position and every 5-char SQLSTATE over a 10-letter alphabet are enumerated; optional-library classifiers compared with default_classifier with their library made unimportable.",
         "the model leaves inputs the documentation does not pin (bools as codes, http 422, non-string sqlstate, non-ASCII message text) unchecked beyond totality; marker-over-code precedence asserted for default/strict only", "DESIGN.md §3 C19"),
+    "C20": _std("exploration", "Grammar-based Hypothesis generation + exhaustive digit-length sweep + Atheris (libFuzzer, coverage-guided) campaigns with the semantic oracle in the target; end-to-end policy runs on a virtual clock",
+        "Generated Retry-After values (digit strings of any length, signs, whitespace, dates in five formats, garbage, non-strings) in 11 container shapes; every digit-string length up to 600/5000 enumerated; coverage-guided byte-level fuzzing of the header text from seeded and empty corpora with the same oracle; policies using http_retry_after_classifier + retry_after_or checked for min(rem,n) <= wait <= min(rem,n+jitter).",
+        "what is a date is delegated to email.utils.parsedate_to_datetime; date hints are bracketed by real clock readings; Atheris campaigns are pinned only approximately by -seed/-runs (the saved input is the reproducible unit)", "DESIGN.md §3 C20"),
 })
 
 PENDING_REASON = "check not built yet in this snapshot (work in progress; see DESIGN.md §3 for the planned generated-input check)"
